@@ -41,6 +41,12 @@ def endpoint(T, ep):
     if ep == 'date': return T.date()
     if ep == 'int': return T.year * 10000 + T.month * 100 + T.day
     if ep == 'iso': return T.isoformat()
+    if ep == 'pdts':
+        import pandas as pd
+        return pd.Timestamp(T)
+    if ep == 'np_us':
+        import numpy as np
+        return np.datetime64(T, 'us')
     return T
 
 def endpoints(t0, t1, case):
@@ -110,6 +116,8 @@ def impl(case):
         calendar(holidays=[us2dt(h) for h in case['dirty_cal']], weekend=[4, 5])
     e0, e1 = endpoints(t0, t1, case)
     st, r = call(f, e0, e1, B)
+    if st == 'ok' and not isinstance(r, list):
+        return {'status': 'ok', 'obs': ['ERR', 'not-a-list'], 'viol': 'drange(%s, %s, %r) returned %r, not a list of dates (nor a ValueError)' % (t0, t1, B, r)}
     again = None
     if st == 'ok' and isinstance(r, list):
         # state a call leaves behind must not change the next one: the caller edits the list it was handed, asks for the
@@ -268,6 +276,9 @@ def gen_cases(rng, tier):
             c['ep0'] = rng.choice(['date', 'int', 'iso']); c['ep1'] = rng.choice(['date', 'int', 'iso', 'dt'])
         elif r < 0.2:
             c['ep0'] = 'iso'; c['ep1'] = rng.choice(['iso', 'dt'])
+        elif 0.75 <= r < 0.87 and 1700 < us2dt(min(c['t0'], c['t1'])).year and us2dt(max(c['t0'], c['t1'])).year < 2250:
+            # the endpoints as the types a pandas / numpy user holds (sub-second parts included)
+            c['ep0'] = rng.choice(['pdts', 'np_us']); c['ep1'] = rng.choice(['pdts', 'np_us', 'dt'])
         elif r < 0.3 and not isb:
             c['via'] = 'calendar'
         elif r < 0.4 and b is not None and 'str' in b:
